@@ -98,6 +98,59 @@ theorem C01_stack_safety_any_entry (s : Stack) (part : Bool) (B : NT) (v : Nat) 
     safe_of_locally_balanced (utapGood s) (utapSig s) (utapEff s) hG (effect_wf s) part B v tr hrun h hentry
   exact ⟨h', h1, h2, h3⟩
 
+/-! ## the XML reader's own operand-consuming call
+
+`XMLReader::location` parses the `invariant` / `exponentialrate` labels with `parse_XTA(text, builder, newxta, S_INVARIANT |
+S_EXPONENTIAL_RATE)` and passes `hasInvariant` / `hasER = true` to `proc_location` **only when that parse returned 0**
+(src/xmlreader.cpp `invariant()`), i.e. after a *complete* (possibly error-recovering) derivation of the start
+alternative.  `proc_location` is the only direct call of the reader that consumes operands.  (The reader's call
+sequences as a whole are not modelled; these lemmas cover the hand-over of operands.) -/
+
+theorem C01_reader_location_invariant (tok : NT) (htok : tok = .Start_T_NEW_INVARIANT ∨ tok = .Start_T_OLD_INVARIANT)
+    (v : Nat) (tr : List (CallInst CB)) (hrun : RunNT (utapGood .F) false tok v tr) (h : Int) (h0 : 0 ≤ h) :
+    ∃ h', runH (utapEff .F) h (tr ++ [⟨.proc_location_true_false, 0, false, 0⟩]) = some h' ∧ 0 ≤ h' := by
+  have hG : ∀ p ∈ utapGood .F, lbProd (utapSig .F) (utapEff .F) p = true := fun p hp => (List.mem_filter.mp hp).2
+  have hlo : (utapSig .F tok).lo = some (1, 0) ∧ (utapSig .F tok).need = 0 := by
+    rcases htok with rfl | rfl <;> decide
+  obtain ⟨h1, hr, _, _, hexit⟩ :=
+    safe_of_locally_balanced (utapGood .F) (utapSig .F) (utapEff .F) hG (effect_wf .F) false tok v tr hrun h
+      (by rw [hlo.2]; simpa using h0)
+  have hb := hexit rfl 1 0 hlo.1
+  refine ⟨h1 + (-1), runH_snoc (utapEff .F) h h1 tr _ 1 (-1) hr (by rfl) (by omega), by omega⟩
+
+theorem C01_reader_location_rate (v : Nat) (tr : List (CallInst CB))
+    (hrun : RunNT (utapGood .F) false .Start_T_EXPONENTIAL_RATE v tr) (h : Int) (h0 : 0 ≤ h) :
+    ∃ h', runH (utapEff .F) h (tr ++ [⟨.proc_location_false_true, 0, false, 0⟩]) = some h' ∧ 0 ≤ h' := by
+  have hG : ∀ p ∈ utapGood .F, lbProd (utapSig .F) (utapEff .F) p = true := fun p hp => (List.mem_filter.mp hp).2
+  have hlo : (utapSig .F .Start_T_EXPONENTIAL_RATE).lo = some (1, 0) ∧ (utapSig .F .Start_T_EXPONENTIAL_RATE).need = 0 := by
+    decide
+  obtain ⟨h1, hr, _, _, hexit⟩ :=
+    safe_of_locally_balanced (utapGood .F) (utapSig .F) (utapEff .F) hG (effect_wf .F) false _ v tr hrun h
+      (by rw [hlo.2]; simpa using h0)
+  have hb := hexit rfl 1 0 hlo.1
+  refine ⟨h1 + (-1), runH_snoc (utapEff .F) h h1 tr _ 1 (-1) hr (by rfl) (by omega), by omega⟩
+
+/-- both labels: invariant, then rate (any further *failed* label parses in between only add operands) -/
+theorem C01_reader_location_both (v1 v2 : Nat) (tr1 tr2 : List (CallInst CB))
+    (hrun1 : RunNT (utapGood .F) false .Start_T_NEW_INVARIANT v1 tr1)
+    (hrun2 : RunNT (utapGood .F) false .Start_T_EXPONENTIAL_RATE v2 tr2) (h : Int) (h0 : 0 ≤ h) :
+    ∃ h', runH (utapEff .F) h ((tr1 ++ tr2) ++ [⟨.proc_location_true_true, 0, false, 0⟩]) = some h' ∧ 0 ≤ h' := by
+  have hG : ∀ p ∈ utapGood .F, lbProd (utapSig .F) (utapEff .F) p = true := fun p hp => (List.mem_filter.mp hp).2
+  have hlo1 : (utapSig .F .Start_T_NEW_INVARIANT).lo = some (1, 0) ∧ (utapSig .F .Start_T_NEW_INVARIANT).need = 0 := by
+    decide
+  have hlo2 : (utapSig .F .Start_T_EXPONENTIAL_RATE).lo = some (1, 0) ∧ (utapSig .F .Start_T_EXPONENTIAL_RATE).need = 0 := by
+    decide
+  obtain ⟨h1, hr1, hnn1, _, hexit1⟩ :=
+    safe_of_locally_balanced (utapGood .F) (utapSig .F) (utapEff .F) hG (effect_wf .F) false _ v1 tr1 hrun1 h
+      (by rw [hlo1.2]; simpa using h0)
+  have hb1 := hexit1 rfl 1 0 hlo1.1
+  obtain ⟨h2, hr2, _, _, hexit2⟩ :=
+    safe_of_locally_balanced (utapGood .F) (utapSig .F) (utapEff .F) hG (effect_wf .F) false _ v2 tr2 hrun2 h1
+      (by rw [hlo2.2]; simpa using hnn1)
+  have hb2 := hexit2 rfl 1 0 hlo2.1
+  have hr12 : runH (utapEff .F) h (tr1 ++ tr2) = some h2 := by simp [runH_append, hr1, hr2]
+  refine ⟨h2 + (-2), runH_snoc (utapEff .F) h h2 (tr1 ++ tr2) _ 2 (-2) hr12 (by rfl) (by omega), by omega⟩
+
 -- non-vacuity: on the operand stack all but one production are good, and every start alternative is
 example : (utapGood .F).length + 3 ≥ prods.length ∧ ((utapGood .F).filter (fun p => p.lhs == startNT)).length = 29 := by
   decide +kernel
